@@ -90,9 +90,14 @@ def other_items(params, shape, prefix=''):
             yield prefix + k, v
 
 
-def call(two_d, name, xs, y, kw, stack=False):
+def call(two_d, name, xs, y, kw, stack=False, iface='class', module=None):
     from pybaselines import Baseline, Baseline2D
+    import importlib
     try:
+        if iface == 'func' and not two_d:
+            fn = getattr(importlib.import_module('pybaselines.' + module), name)
+            b, p = fn(y, x_data=xs[0], **kw)
+            return ('ok', b, p)
         fit = Baseline2D(*xs) if two_d else Baseline(xs[0])
         b, p = getattr(fit, name)(y, **kw)
         return ('ok', b, p)
@@ -121,7 +126,7 @@ def build_case(ctx, rng, two_d, name, entry, n, want_weights, mi_choice):
     return kw, pp, ((x, z) if two_d else (x,)), y, shape
 
 
-def run_case(ctx, rng, two_d, name, entry, n, pkind, axes, want_weights, mi_choice):
+def run_case(ctx, rng, two_d, name, entry, n, pkind, axes, want_weights, mi_choice, iface='class'):
     """returns list of Disagreement"""
     kw, pp, xs, y, shape = build_case(ctx, rng, two_d, name, entry, n, want_weights, mi_choice)
     stack = name == 'collab_pls'
@@ -142,18 +147,19 @@ def run_case(ctx, rng, two_d, name, entry, n, pkind, axes, want_weights, mi_choi
     xs_u = tuple(xv[p] for xv, p in zip(xs, perms))
     kw_s = dict(kw, **pp)
     kw_u = dict(kw, **{k: permute(v) for k, v in pp.items()})
-    rs = call(two_d, name, xs, ys, kw_s)
-    ru = call(two_d, name, xs_u, permute(ys), kw_u)
-    canon = (name, two_d, tuple(axes), pkind, want_weights, mi_choice, n)
+    rs = call(two_d, name, xs, ys, kw_s, iface=iface, module=entry['module'])
+    ru = call(two_d, name, xs_u, permute(ys), kw_u, iface=iface, module=entry['module'])
+    canon = (name, two_d, tuple(axes), pkind, want_weights, mi_choice, n, iface)
+    ctx.count('iface:' + iface)
     trivial = all((p == np.arange(len(p))).all() for p in perms)
     ctx.count(('2d:' if two_d else '1d:') + pkind)
     ctx.count('weights:' + ('user' if want_weights else 'none'))
     ctx.count('max_iter:' + str(mi_choice))
-    sample = {'method': name, 'two_d': two_d, 'perm': pkind, 'axes': list(axes), 'user_weights': want_weights,
+    sample = {'method': name, 'two_d': two_d, 'iface': iface, 'module': entry['module'], 'perm': pkind, 'axes': list(axes), 'user_weights': want_weights,
               'max_iter': mi_choice, 'shape': list(shape)}
     replay = dict(sample, seed_state=None, x=[xv.tolist() for xv in xs_u], y=np.asarray(permute(ys)).tolist(),
                   kwargs={k: (v.tolist() if isinstance(v, np.ndarray) else v) for k, v in kw_u.items()})
-    sig = f'{"2d" if two_d else "1d"}:{name}:weights={"user" if want_weights else "none"}'
+    sig = f'{"2d" if two_d else "1d"}:{name}:weights={"user" if want_weights else "none"}' + (':func' if iface == 'func' else '')
     out = []
     if rs[0] == 'exc' or ru[0] == 'exc':
         ctx.case(canon, nontrivial=False, sample=None)
@@ -193,8 +199,8 @@ def run_case(ctx, rng, two_d, name, entry, n, pkind, axes, want_weights, mi_choi
             targets.append((label, sl, ul))
 
     add('baseline', bs, bu)
-    keys_s, os_ = cmp.split(ps, shape)
-    keys_u, ou_ = cmp.split(pu, shape)
+    keys_s, os_ = cmp.split(ps, shape, name)
+    keys_u, ou_ = cmp.split(pu, shape, name)
     for k in sorted(set(keys_s) | set(keys_u)):
         if k not in keys_s or k not in keys_u:
             out.append(Disagreement('c02.keys', sig, f'{name}: per-point key {k} present in only one run',
@@ -250,7 +256,12 @@ def cases(ctx):
                 mis = mi_opts if ctx.thorough else [None, mi_opts[int(rng.integers(1, len(mi_opts)))] if len(mi_opts) > 1 else None]
                 for mi in dict.fromkeys(mis):
                     n = int(rng.choice([25, 31, 40, 57])) if not ctx.thorough else int(rng.choice([25, 40, 57, 120, 301]))
-                    plan.append((False, name, e, n, kinds[int(rng.integers(0, len(kinds)))], (0,), ww, mi))
+                    ifaces = ['class', 'func'] if (name in M.OPTIMIZERS_1D or ctx.thorough) else \
+                        [['class', 'class', 'func'][int(rng.integers(0, 3))]]
+                    for iface in ifaces:
+                        # kinds[0..] : 'random' and 'rotate' are not self-inverse; always use one of those for 'func'
+                        pk = kinds[int(rng.integers(0, len(kinds)))] if iface == 'class' else ['random', 'rotate'][int(rng.integers(0, 2))]
+                        plan.append((False, name, e, n, pk, (0,), ww, mi, iface))
         for name, e in reg2.items():
             for ww in (False, True):
                 if ww and not ({'weights', 'alpha'} & set(e['params'])):
@@ -361,8 +372,8 @@ def replay(ctx, data):
         a = np.asarray(a)
         return a[..., invs[0][:, None], invs[1][None, :]] if two_d else a[..., invs[0]]
     kws = {k: (srt(v) if k in ('weights', 'alpha') else v) for k, v in kw.items()}
-    ru = call(two_d, name, xs, y, kw)
-    rs = call(two_d, name, [v[s] for v, s in zip(xs, sos)], srt(y), kws)
+    ru = call(two_d, name, xs, y, kw, iface=r.get('iface', 'class'), module=r.get('module'))
+    rs = call(two_d, name, [v[s] for v, s in zip(xs, sos)], srt(y), kws, iface=r.get('iface', 'class'), module=r.get('module'))
     if ru[0] != rs[0]:
         return f'outcomes differ: {ru[:2]} vs {rs[:2]}'
     if ru[0] == 'exc':
@@ -371,7 +382,7 @@ def replay(ctx, data):
     def get(b, p):
         if label == 'baseline':
             return b
-        return cmp.split(p, np.shape(b))[0][label]
+        return cmp.split(p, np.shape(b), name)[0][label]
     a, b = get(ru[1], ru[2]), unsrt(get(rs[1], rs[2]))
     if not close(a, b):
         return f'{name}:{label} max abs diff {float(np.max(np.abs(np.asarray(a)-np.asarray(b)))):.3g}'
